@@ -42,5 +42,14 @@ SpecRoundTrip ==
       d == DecodeText(EncodeText(text, opt.enc, opt.bom), opt.enc, opt.bom)
       r == ParseXml(d[2])
   IN d[1] /\ r.ok /\ SameTree(r.el, tree)
-Export == PrintT(<<"GEN", ToJson([root |-> root, opt |-> opt])>>)
+RtPol == [mm |-> "throw", ov |-> "throw", arch |-> "xml", dev |-> ""]
+\* named deviation Dev_XmlCrNotEscaped: the document that a parser sees has CR / CRLF normalised to LF
+RECURSIVE NormCrDoc(_)
+NormCrDoc(v) ==
+  IF v[1] = "str" THEN <<"str", EncodeCps(NormEol(StrBytesToCps(v[2])[2], 1), "utf8", 1)>>
+  ELSE IF v[1] = "arr" THEN <<"arr", [i \in 1..Len(v[2]) |-> NormCrDoc(v[2][i])]>>
+  ELSE IF v[1] = "map" THEN <<"map", [i \in 1..Len(v[2]) |-> <<v[2][i][1], NormCrDoc(v[2][i][2])>>]>>
+  ELSE v
+Export == PrintT(<<"GEN", ToJson([root |-> root, opt |-> opt, exp |-> Exec(Doc, root, RtPol), expsave |-> "ok",
+                                 expdev |-> IF NormCrDoc(Doc) = Doc THEN <<>> ELSE <<[dev |-> "Dev_XmlCrNotEscaped", exp |-> Exec(NormCrDoc(Doc), root, RtPol)]>>])>>)
 =============================================================================
